@@ -463,6 +463,13 @@ class EltoritoEntry:
         """
         if not self._initialized:
             raise pycdlibexception.PyCdlibInternalError('El Torito Entry not initialized')
+        # With floppy emulation the image is a whole diskette, whatever the
+        # sector count (the number of sectors to load at boot) says.
+        floppy_size = {self.MEDIA_12FLOPPY: 1200 * 1024,
+                       self.MEDIA_144FLOPPY: 1440 * 1024,
+                       self.MEDIA_288FLOPPY: 2880 * 1024}
+        if self.boot_media_type in floppy_size:
+            return floppy_size[self.boot_media_type]
         # According to El Torito, the sector count is in virtual sectors, which
         # are defined to be 512 bytes.
         return self.sector_count * 512
